@@ -28,6 +28,7 @@ type World struct {
 	specInsts map[*gen]map[string]*specInst
 	lemmaPkg  *types.Package
 	funcsByKey map[string]*ssa.Function
+	curUnit    *Unit
 	typeIDs    map[string]int
 }
 
@@ -125,6 +126,15 @@ func LoadWorld(repo string, pkgDirs []string) (*World, error) {
 			}
 		}
 	}
+	// instantiations of generic functions are not package members: index those of the module's packages
+	for fn := range ssautil.AllFunctions(prog) {
+		if fn.Origin() != nil && fn.Origin() != fn {
+			pk := fn.Origin().Pkg
+			if pk != nil && w.pkgs[pk.Pkg.Path()] != nil {
+				w.indexFn(fn)
+			}
+		}
+	}
 	// contract files of every package are read (callee contracts), packages are loaded only as needed
 	cs, err := LoadContracts(repo, contractDirs(repo))
 	if err != nil {
@@ -198,10 +208,16 @@ func (w *World) contractFor(full string, from *Unit) *Contract {
 	if ct, ok := w.cs.Funcs[full]; ok && ct.Opts["verify-only"] == "" {
 		return ct
 	}
-	if ct, ok := w.cs.Externs[full]; ok {
-		return ct
+	// assumed (extern) contracts are scoped to the unit that states them
+	if from != nil {
+		if ct, ok := w.cs.Externs[from.Name+"/"+full]; ok {
+			return ct
+		}
 	}
 	for _, ct := range w.cs.ExternGlb {
+		if from != nil && ct.Unit != from {
+			continue
+		}
 		if globMatch(ct.Key, full) || globMatch(ct.Key, w.shortKey(full)) {
 			return ct
 		}
@@ -303,6 +319,9 @@ func (w *World) contractsSorted() []*Contract {
 func (w *World) aliasExtern(name string) (*Contract, int) {
 	for _, ct := range w.cs.All {
 		if ct.Kind != "extern" || !ct.Pure {
+			continue
+		}
+		if w.curUnit != nil && ct.Unit != w.curUnit {
 			continue
 		}
 		if al, ok := ct.Opts["alias"]; ok {
